@@ -4,7 +4,7 @@ from ref import pools, adaptor, ecdsa
 
 ID = "C14"
 LEVEL = "exploration"
-CONFIGS = {"quick": ["san"], "thorough": ["san", "san_nv", "mx_i64", "mx_i128s"]}
+CONFIGS = {"quick": ["san", "mx_i64"], "thorough": ["san", "san_nv", "mx_i64", "mx_i128s"]}
 EXTRA_BUILDS = ["sg13", "sg199"]
 RULE = ("encrypt -> verify -> decrypt -> ECDSA verify -> recover pipelines over pool keys (1, n-1, ...) and messages (0, >= n), default/custom nonce "
         "functions with and without aux; adaptor_verify on honest 162-byte strings and their mutations: single-bit flips (all 1296 for some, sampled "
@@ -73,6 +73,10 @@ def wl_pipeline(ctx, config):
         Y2 = mulG(rng.randrange(1, n)); bads.append(("wrong_enckey", rs[0], rs[1], Y2, pkobj(ctx, Y2, config)))
         bads.append(("neg_enckey", rs[0], rs[1], neg(Y), pkobj(ctx, neg(Y), config)))
         bads.append(("s_altered", rs[0], (rs[1] + 1) % n or 1, Y, Yo))
+        # r differing from the adaptor's R.x in exactly one bit, at every position over the run (equality tested limb by limb)
+        for bit in ((it * 5) % 256, (it * 5 + 1) % 256, (it * 5 + 2) % 256, (it * 5 + 3) % 256, (it * 5 + 4) % 256, 255 - it % 32):
+            rf = rs[0] ^ (1 << bit)
+            if 0 < rf < n: bads.append(("r_bitflip", rf, rs[1], Y, Yo))
         for cls, rr, ss, Yb, Ybo in bads:
             so = ctx.call("sig_parse_compact", b32(rr) + b32(ss), config=config)
             if so is None or Ybo is None: continue
@@ -188,8 +192,9 @@ def wl_infinity(ctx, config):
 def run(ctx):
     from vlib import smallgroup
     smallgroup.run(ctx, 'adaptor', {'adaptor_sp_reenc': 'accepted', 'adaptor_dleq_s_reenc': 'accepted', 'adaptor_decrypt_sp_reenc': 'accepted'})
-    for config in ctx.configs:
+    for i, config in enumerate(ctx.configs):
         wl_pipeline(ctx, config)
+        if ctx.quick and i > 0: continue          # quick: the 32-bit-limb build runs the pipeline (with its recover / verify mutations) only
         wl_chosen_sp(ctx, config)
         wl_infinity(ctx, config)
         wl_fail_paths(ctx, config)
